@@ -428,7 +428,35 @@ def call_real(fn, *args):
     except RecursionError:
         return 'X:RecursionError'
     except Exception as exc:  # noqa: BLE001 - the outcome alphabet includes every exception
-        return 'X:' + type(exc).__name__
+        return 'X:Timeout' if type(exc).__name__ == '_CallTimeout' else 'X:' + type(exc).__name__
+
+
+class _CallTimeout(Exception):
+    pass
+
+
+def _raise_call_timeout(_sig, _frm):
+    raise _CallTimeout()
+
+
+def call_real_limited(fn, *args, seconds=10.0):
+    """`call_real` under a wall-clock limit (main thread only): a call of the real code that does not return within
+    `seconds` has the outcome X:Timeout — so a changed tree that sends a harmless argument into an astronomically
+    long computation (a text read as a huge serial handed to FACT or POWER) is REPORTED by the oracle that
+    compares outcomes, instead of stalling the whole check into its infrastructure timeout (exit 2)."""
+    import signal
+    try:
+        old = signal.signal(signal.SIGALRM, _raise_call_timeout)
+    except ValueError:            # not the main thread
+        return call_real(fn, *args)
+    signal.setitimer(signal.ITIMER_REAL, seconds)
+    try:
+        return call_real(fn, *args)
+    except _CallTimeout:
+        return 'X:Timeout'
+    finally:
+        signal.setitimer(signal.ITIMER_REAL, 0)
+        signal.signal(signal.SIGALRM, old)
 
 
 def num_value(w):
